@@ -310,6 +310,42 @@ Section EngineBridge.
     destruct aq; exact Hq.
   Qed.
 
+  (** unsafeEventQueue.snapshot copies the heap slice and sorts it with eventHeap.less
+      (sort.Slice); whatever algorithm sorts, the result is a strictly sorted permutation
+      of the heap content, and there is only one: the pop order [q_drain] computes. *)
+  Lemma strict_sorted_perm_unique (T : Type) (less : T -> T -> bool) :
+    (forall a b, less a b = true -> less b a = false) ->
+    forall l1 l2, StronglySorted (slt less) l1 -> StronglySorted (slt less) l2 ->
+                  Permutation l1 l2 -> l1 = l2.
+  Proof.
+    intros Hasym. induction l1 as [|x r IH]; intros l2 H1 H2 Hp.
+    - apply Permutation_nil in Hp. subst. reflexivity.
+    - destruct l2 as [|y r']; [apply Permutation_sym, Permutation_nil in Hp; discriminate|].
+      inversion H1 as [|? ? H1r H1x]; subst. inversion H2 as [|? ? H2r H2y]; subst.
+      assert (Hxy : x = y).
+      { assert (Hinx : In x (y :: r')) by (eapply Permutation_in; [exact Hp|left; reflexivity]).
+        assert (Hiny : In y (x :: r)) by (eapply Permutation_in; [apply Permutation_sym; exact Hp|left; reflexivity]).
+        destruct Hinx as [->|Hinx]; [reflexivity|].
+        destruct Hiny as [->|Hiny]; [reflexivity|].
+        rewrite Forall_forall in H1x, H2y.
+        pose proof (H1x _ Hiny) as A. pose proof (H2y _ Hinx) as B.
+        unfold slt in A, B. rewrite (Hasym _ _ A) in B. discriminate. }
+      subst y. f_equal. apply IH; try assumption.
+      eapply Permutation_cons_inv. exact Hp.
+  Qed.
+
+  Theorem sorted_snapshot_is_pop_order hq aq (l : list (@qev Ev)) : QR hq aq ->
+    Permutation (Engine.q_heap hq) l -> StronglySorted (slt (qless ev_time)) l ->
+    map fst l = q_drain (q_len hq) hq.
+  Proof.
+    intros Hq Hp Hs. rewrite (drain_snapshot hq aq Hq). unfold AbsSim.snapshot.
+    destruct Hq as ((_ & Hperm & Hsorted) & _ & _).
+    assert (E : l = map (to_qev Ev) (AbsSim.q_items aq)).
+    { apply (strict_sorted_perm_unique _ (qless ev_time) (qless_asym ev_time)); try assumption.
+      etransitivity; [apply Permutation_sym; exact Hp|exact Hperm]. }
+    rewrite E, map_map. reflexivity.
+  Qed.
+
   Lemma restore_rel es : forall hq aq, QR hq aq ->
     QR (fold_left (q_push ev_time) es hq) (fold_left (AbsSim.push Ev ev_time) es aq).
   Proof.
